@@ -26,7 +26,34 @@ SKIP_CONFIGS = [
 ]
 
 
-def gen_case(seed, i, engine, mask, skipped=None, keys=None):
+DIRECTED_KEYS = [PREFIX + b"/da", PREFIX + b"/db"]
+# the delete calls of the compaction of `directed_history` at its last revision, in order (checked against the delete-call
+# log of every directed case): the compare-and-delete of the deleted key's revision record, then plain deletes only
+DIRECTED_CALLS = ["delcur", "del", "del", "del", "del", "del"]
+
+
+def directed_history(sh):
+    """/da: created, updated, deleted (revision record flagged, two versions under the deletion marker);
+    /db: created, updated twice (live, two superseded versions)"""
+    ka, kb = DIRECTED_KEYS
+    lines = []
+
+    def w(kind, key, val=None):
+        exp = sh.keys[key][0] if kind != "create" else 0
+        if kind == "create":
+            lines.append("create %s %s" % (hx(key), hx(val)))
+        elif kind == "update":
+            lines.append("update %s %s %d" % (hx(key), hx(val), exp))
+        else:
+            lines.append("delete %s %d" % (hx(key), exp))
+        assert sh.write(kind, key, exp)
+        lines.append("rev")
+    w("create", ka, b"a1"); w("update", ka, b"a2"); w("delete", ka)
+    w("create", kb, b"b1"); w("update", kb, b"b2"); w("update", kb, b"b3")
+    return lines
+
+
+def gen_case(seed, i, engine, mask, skipped=None, keys=None, directed=False):
     """history -> probes -> compact R with mask -> same probes -> writes on every key -> reads"""
     r = rng_for(seed, "c07/%d" % i)
     keys = keys or r.sample([k for k in KEY_POOL if b"events" not in k], r.randint(2, 5))
@@ -35,8 +62,13 @@ def gen_case(seed, i, engine, mask, skipped=None, keys=None):
     if skipped:
         kw["skipped"] = ",".join(hx(s) for s in skipped)
     lines = [hist.cfg_line(engine, **kw)]
-    lines += hist.gen_writes(r, sh, r.randint(8, 30), keys, p_ok=0.85)
-    R = r.randint(hist.INIT + 1, sh.dealt)
+    if directed:
+        keys = DIRECTED_KEYS
+        lines += directed_history(sh)
+        R = sh.dealt
+    else:
+        lines += hist.gen_writes(r, sh, r.randint(8, 30), keys, p_ok=0.85)
+        R = r.randint(hist.INIT + 1, sh.dealt)
     revs = sorted(set([R, sh.dealt, 0] + [r.randint(R, sh.dealt) for _ in range(2)]))
     probes = probe_reads(keys, revs)
     lines += ["echo before"] + probes + ["dump"]
@@ -49,7 +81,19 @@ def gen_case(seed, i, engine, mask, skipped=None, keys=None):
     # a second, complete pass: convergence after a failed/interrupted one
     lines.append("compact %d" % R)
     lines += ["echo after2"] + probe_reads(keys, [sh.dealt, 0])
-    return core.Case("backend", lines, {"engine": engine, "R": R, "skipped": skipped or []})
+    return core.Case("backend", lines, {"engine": engine, "R": R, "skipped": skipped or [], "mask": mask, "directed": directed})
+
+
+def cas_hits(case):
+    """the kinds (`del` = plain delete, `delcur` = compare-and-delete) of the delete calls of the masked compaction that
+    were made to fail with an error of the failed-condition class, from the implementation's delete-call log"""
+    mask = case.meta.get("mask", "")
+    if not mask.startswith("m=") or ":c" not in mask:
+        return []
+    log = next((out for line, out in zip(case.lines, case.impl) if line == "dellog"), "dellog -")
+    calls = [] if log.split()[1:] in ([], ["-"]) else log.split()[1].split(",")
+    idx = [int(e.split(":")[0]) for e in mask[2:].split(",") if e.endswith(":c")]
+    return [calls[j].split(":")[0] for j in idx if j < len(calls)]
 
 
 def oracle(case):
@@ -147,9 +191,19 @@ def race_case(seed, i, engine):
 def masks(tier, r):
     ms = ["", "m=0:f", "m=1:f", "m=2:f", "m=3:f", "m=5:f", "crash=0", "crash=1", "crash=2", "crash=3", "crash=4",
           "m=0:f,2:f", "crash=6"]
+    # `<i>:c`: the i-th delete call — a plain delete (compactKey) or a compare-and-delete (compactCurrent), whichever
+    # it is in that history — fails with storage.ErrCASFailed (TiKV reports a write conflict that way, for both)
+    ms += ["m=0:c", "m=1:c", "m=2:c", "m=3:c", "m=5:c", "m=0:c,2:c", "m=1:c,2:f", "m=0:f,1:c,3:c"]
     if tier != "quick":
         ms += ["m=%d:f" % i for i in range(4, 14)] + ["crash=%d" % i for i in range(5, 14)] + ["m=1:f,4:f", "m=0:f,3:f"]
+        ms += ["m=%d:c" % i for i in range(4, 14)] + ["m=1:c,4:c", "m=0:c,3:f", "m=2:c,3:c,4:c", "m=0:c,1:c,2:c,3:c,4:c,5:c,6:c,7:c"]
     return ms
+
+
+# the directed history has six delete calls of known kinds: each of them failing with a failed-condition error alone,
+# pairs across the two keys and both kinds, and all of them
+DIRECTED_MASKS = ["m=%d:c" % i for i in range(6)] + ["m=0:c,1:c", "m=1:c,4:c", "m=0:c,2:c,5:f", "m=0:c,1:c,2:c,3:c,4:c,5:c"]
+ALL_ENGINES = ENGINES + ["metrics-memkv", "metrics-tikv"]   # metrics-: failures injected BELOW the storage-metrics wrapper
 
 
 def check(rep, tier, seed):
@@ -158,15 +212,29 @@ def check(rep, tier, seed):
     cases = []
     for i in range(n_hist):
         for m in masks(tier, r):
-            eng = (ENGINES + ["metrics-memkv", "metrics-tikv"])[(i + len(m)) % 5]   # metrics-: failures injected BELOW the storage-metrics wrapper
+            eng = ALL_ENGINES[(i + len(m)) % 5]
             sk = [PREFIX + b"/a"] if i % 4 == 3 else None
             cases.append(gen_case(seed, i, eng, m, sk))
     # skipped-prefix configurations (the property quantifies over all of them)
     for j, sk in enumerate(SKIP_CONFIGS if tier == "quick" else SKIP_CONFIGS * 6):
         cases.append(gen_case(seed, 900 + j, ENGINES[j % 3], "", sk, keys=SKIP_KEYS))
+    # failed-condition errors on delete calls of KNOWN kind (compare-and-delete: call 0; plain deletes: calls 1..5),
+    # every mask on every engine
+    for j, m in enumerate(DIRECTED_MASKS):
+        for e, eng in enumerate(ALL_ENGINES):
+            cases.append(gen_case(seed, 700 + 10 * j + e, eng, m, directed=True))
     races = [race_case(seed, i, ["tikv", "tikv", "memkv", "badger"][i % 4]) for i in range(24 if tier == "quick" else 600)]
     cases += races
     core.run_cases(cases)
+    # what the CAS-class entries of the masks actually hit, per engine and kind of delete call
+    hits = {}
+    for c in cases:
+        if c.meta.get("race"):
+            continue
+        for kind in cas_hits(c):
+            key = "%s/%s" % (c.meta["engine"], kind)
+            hits[key] = hits.get(key, 0) + 1
+    rep.cov["cas_class_delete_failures"] = dict(sorted(hits.items()))
     for c in cases:
         rep.count_case(c)
         if c.meta.get("race"):
@@ -181,7 +249,16 @@ def check(rep, tier, seed):
         if c.diff() is not None:
             core.handle_diff(rep, "C07", "correspondence", c)
             return
+    # the injected failures must have been what the masks say (the check would be vacuous otherwise)
+    for c in cases:
+        if c.meta.get("directed"):
+            log = next(out for line, out in zip(c.lines, c.impl) if line == "dellog")
+            kinds = [x.split(":")[0] for x in log.split()[1].split(",")] if log != "dellog -" else []
+            if kinds != DIRECTED_CALLS[:len(kinds)] or not kinds:
+                raise RuntimeError("C07: directed history made the delete calls %s, expected a prefix of %s" % (kinds, DIRECTED_CALLS))
+    missing = ["%s/%s" % (e, k) for e in ALL_ENGINES for k in ("del", "delcur") if not hits.get("%s/%s" % (e, k))]
+    if missing:
+        raise RuntimeError("C07: no failed-condition error was injected on: %s" % ", ".join(missing))
     rep.cov["exhaustive"] = False
-    rep.assumptions += ["unconditional Del never fails with a condition error (engine contract)",
-                        "non-event keys (expiry on non-TTL engines is C17's)",
+    rep.assumptions += ["non-event keys (expiry on non-TTL engines is C17's)",
                         "delete failures / crash points injected at the KvStorage boundary; one partition per compaction range when a mask is given"]
